@@ -41,7 +41,7 @@ def run(ck: Checker):
     ck.rule('C19-4', 'batch ownership: a yielded batch is never mutated afterwards', minimum=2)
     f = ck.repo.func(STREAMER, 'EagerBatcher.__iter__')
     check_size_bound(ck, 'C19-2', f, 'self._batch_size')
-    check_deadline_shape(ck, 'C19-3', f, queue='self._instream', wait_attr='self._batch_wait_time')
+    check_deadline_shape(ck, 'C19-3', f, queue='self._instream', wait_attr='self._batch_wait_time', size_attr='self._batch_size')
     check_wait_config(ck, 'C19-3', ck.repo.func(STREAMER, 'EagerBatcher.__init__'), param='batch_wait_time', attr='self._batch_wait_time')
     check_batch_ownership(ck, 'C19-4', f)
     # ------------------------------------------------------------------ C19-1
